@@ -3,7 +3,7 @@
    blob signature.  The fact [r_ok] of an OwnerSign (22) request stands for: voucher with >= 1 entry whose chain
    verifies, to0d hash equals the hash in the blob, nonce = the one issued in this session, blob signed by the key the
    voucher's last entry names, accepted TTL non-zero.  The TTL / expiry arithmetic is checked on the implementation. *)
-From FDO Require Import Cbor.Typed Cose.Sign1 Fdo.Voucher Fdo.VoucherFacts Fdo.Server Fdo.ServerFacts Fdo.Owner Fdo.OwnerFacts.
+From FDO Require Import Cbor.Typed Cose.Sign1 Fdo.Voucher Fdo.VoucherFacts Fdo.Server Fdo.ServerFacts Fdo.Owner Fdo.OwnerFacts Fdo.OwnerHonest Cbor.RoundTripWf.
 Local Open Scope N_scope.
 
 (* a blob is stored only for a 22 passing every check, with the token of a TO0 session whose Hello was answered *)
@@ -68,6 +68,24 @@ Theorem C06_proof_bytes : forall O_der O_rfc O_verify O_hash O_pubkey nonce ttl_
     ttl_ok wait = true.
 Proof. exact owner_sign_sound. Qed.
 Print Assumptions C06_proof_bytes.
+
+(* conversely the rendezvous server demands nothing else, and an honest registration, ENCODED, is accepted *)
+Theorem C06_honest_accepted : forall O_der O_rfc O_verify O_hash O_pubkey nonce ttl_ok fe body v0 hdr hm v3 ents wait tprot tun t0 halg hval tsig h tb e0 rest owner,
+  let v := VList [VList [VList [v0; hdr; hm; v3; VList ents]; VInt wait; VBytes nonce];
+                  VList [VMap tprot; tun; VList [t0; VList [VInt halg; VBytes hval]]; VBytes tsig]] in
+  RoundTripWf.wf O_der 0 ty_owner_sign v -> enc fe ty_owner_sign v = Ok body ->
+  any_hash_of_alg halg = Some h ->
+  enc Sign1.enc_fuel ty_to0d (VList [VList [v0; hdr; hm; v3; VList ents]; VInt wait; VBytes nonce]) = Ok tb ->
+  O_hash h tb = hval ->
+  entries_of_vals ents = Some (e0 :: rest) ->
+  verify_entries O_der O_rfc O_verify O_hash O_pubkey hdr hm (e0 :: rest) = Ok tt ->
+  owner_key O_pubkey hdr (e0 :: rest) = Ok owner ->
+  sign1_verify O_der O_rfc O_verify ty_to1d_payload TBytes owner tprot
+    (Some (VList [t0; VList [VInt halg; VBytes hval]])) None tsig (VBytes []) = Ok true ->
+  ttl_ok wait = true ->
+  owner_sign_ok O_der O_rfc O_verify O_hash O_pubkey nonce ttl_ok body = true.
+Proof. exact honest_owner_sign. Qed.
+Print Assumptions C06_honest_accepted.
 
 Example C06_run :
   snd (run [] [mkreq 20 TInvalid true false false; mkreq 22 (TSess 0) false false false;
